@@ -188,8 +188,8 @@ func (i UInt16) ExponentiateUInt16(other UInt16) UInt16 {
 		return 1
 	}
 	result := i
-	var j UInt16
-	for j = 2; j <= other; j++ {
+	// count down: an upward counter of the same type wraps around when `other` is the type's maximum
+	for j := other; j >= 2; j-- {
 		result *= i
 	}
 	return result
